@@ -62,6 +62,7 @@ type Cfg struct {
 	Testnet        bool            `json:"testnet"`
 	Testnet4       bool            `json:"testnet4"` // test-net-4-like genesis: all rules active from height 1 inside NewChainExt
 	Long           bool            `json:"long,omitempty"` // 4026-block prefix: the history crosses the retarget boundary at height 4032
+	RealAlloc      bool            `json:"real_alloc,omitempty"` // UTXO records in lib/others/memory instead of the Go heap
 	Blocks         []*ledger.Block `json:"blocks"`
 	Now0           int64           `json:"now0"`
 	CompressUTXO   bool            `json:"compress_utxo"`
@@ -243,6 +244,9 @@ func (H) Gen(prop string, seed uint64, tier string) *hx.Case {
 	if r.Chance(0.3) {
 		cfg.TimerP = 0.05
 	}
+	if prop == "C20" || ((prop == "C06" || prop == "C11" || prop == "C17") && r.Chance(0.3)) || (prop == "C07" && r.Chance(0.1)) {
+		cfg.RealAlloc = true
+	}
 	if prop == "C17" {
 		cfg.WalletMinVal = []uint64{0, 1000, 500000000, 1500000000, 2500000000}[r.Intn(5)]
 		cfg.WalletUseMap = uint32(r.Range(2, 6))
@@ -290,6 +294,9 @@ func (H) Gen(prop string, seed uint64, tier string) *hx.Case {
 		cfg.SkipSave = 0
 		cfg.SaveTargetMs = []int{0, 20, 50, 5000}[r.Intn(4)]
 	}
+	// bulky outputs: the unspent set grows beyond the 64 KiB write buffer of the snapshot writer within a few
+	// blocks, so that "in the middle of streaming the snapshot" is a crash / abort / race point that exists
+	fat := (prop == "C07" || prop == "C11") && r.Chance(0.35)
 	violP := 0.0
 	var viols []string
 	var c05 []string
@@ -301,7 +308,7 @@ func (H) Gen(prop string, seed uint64, tier string) *hx.Case {
 	case "C05":
 		violP, c05 = 0.4, ledger.C05Violations
 		viols = []string{"bad-sig", "overspend"}
-	case "C06", "C07", "C11", "C17":
+	case "C06", "C07", "C11", "C17", "C20":
 		violP, viols = 0.12, []string{"bad-sig", "spent-input", "immature", "overspend", "double-in-block"}
 	}
 	best := tip
@@ -345,6 +352,9 @@ func (H) Gen(prop string, seed uint64, tier string) *hx.Case {
 			continue
 		}
 		o := ledger.BlockOpts{NTx: r.Pick(15, 25, 25, 15, 10, 5, 5), InBlockChain: r.Chance(0.4)}
+		if fat {
+			o.Fat = r.Range(6000, 9500)
+		}
 		if fanout {
 			// blocks that fan out: several transaction packs, more than 32 spent and created records, in-block chains
 			o.NTx = r.Range(8, 45)
@@ -567,6 +577,9 @@ func (H) Gen(prop string, seed uint64, tier string) *hx.Case {
 			if r.Chance(0.7) {
 				add(Op{Op: "wallet_on"})
 			}
+		}
+		if cfg.RealAlloc && r.Chance(0.15) {
+			add(Op{Op: "defragmem"})
 		}
 		switch r.Pick(60, 15, 10, 8, 7) {
 		case 1:
@@ -1127,6 +1140,12 @@ func (H) Run(t *testing.T, c *hx.Case) *hx.Outcome {
 					r.out.Probe("index_built_from_populated_set", 1)
 					r.compareWallet(when)
 				}
+			case "defragmem":
+				if moved := r.n.DefragMem(); moved > 0 {
+					r.out.Probe("allocator_defrag_moved_utxo_records", int64(moved))
+				}
+				r.out.Probe("allocator_defrag", 1)
+				r.compareUTXO(when)
 			case "hurryup":
 				r.n.Ch.Unspent.HurryUp()
 			case "defragmap":
@@ -1210,7 +1229,12 @@ func (r *run) boot() {
 	utxo.UTXO_WRITING_TIME_TARGET = time.Duration(cfg.SaveTargetMs) * time.Millisecond
 	utxo.UTXO_SKIP_SAVE_BLOCKS = cfg.SkipSave
 	r.n = Boot(r.dir, NodeOpts{P: cfg.P, Genesis: cfg.genesis(), CompressBlocks: cfg.CompressBlocks, CacheBlocks: cfg.CacheBlocks,
-		MaxFileSize: uint64(cfg.MaxFileKB) << 10, ClientRecovery: cfg.ClientRecovery, LibraryTail: cfg.Testnet4})
+		MaxFileSize: uint64(cfg.MaxFileKB) << 10, ClientRecovery: cfg.ClientRecovery, LibraryTail: cfg.Testnet4, RealAlloc: cfg.RealAlloc})
+	if cfg.RealAlloc {
+		if k := r.n.Ballast(hx.NewRng(cfg.SchedSeed^0xBA11A57), r.prop == "C20"); k > 0 {
+			r.out.Probe("allocator_classes_with_slot_reuse", int64(k))
+		}
+	}
 	if r.prop == "C17" {
 		common.BlockChain = r.n.Ch
 		common.GocoinHomeDir = r.dir + "/"
